@@ -84,24 +84,31 @@ def rand_encoded(rng, maxlen):
 def gen_cases(rng, n, tier="quick"):
     cases = []
     # --- exhaustive small scope, inside the harness / model runner (digest-compared) ---
-    depths = [0, 1, 2]
-    for d in depths:
+    for d in (0, 1):
         for name in ("ui", "path", "unres"):
             cases.append("sweep uri.rt %s - %d" % (name, d))
         for f in FLAGS:
             cases.append("sweep esc %d - %d" % (f, d))
         cases.append("sweep uri.dec - - %d" % d)
         cases.append("sweep unesc - - %d" % d)
-    if tier == "thorough":                         # all strings of length 3: first byte x all pairs
+    # all 65536 two-byte strings: both decoders, the userinfo encoder, rfc1738_escape, rfc1738_escape_unescaped
+    deep = [("uri.dec", "-"), ("unesc", "-"), ("uri.rt", "ui"), ("esc", "3"), ("esc", "259")]
+    if tier == "thorough":
+        deep += [("uri.rt", "path"), ("uri.rt", "unres")] + [("esc", str(f)) for f in (0, 2, 4, 7, 387)]
+    for op, arg in deep:
+        cases.append("sweep %s %s - 2" % (op, arg))
+    if tier == "thorough":
+        # all strings of length 3 for the decoders; for the encoders the first byte ranges over one
+        # representative per behaviour class (controls, space, '%', reserved, unreserved, DEL, 8-bit, edges)
         for first in range(256):
             p = "%02x" % first
-            for name in ("ui", "path", "unres"):
-                cases.append("sweep uri.rt %s %s 2" % (name, p))
-            for f in (3, 7, 259):
-                cases.append("sweep esc %d %s 2" % (f, p))
             cases.append("sweep uri.dec - %s 2" % p)
             cases.append("sweep unesc - %s 2" % p)
-    # --- exhaustive small scope as single cases through the Python oracle ---
+        for first in sorted(set(b"\x00\x01\x09\x0a\x1f !\"#%&'+-./09:;<=>?@AZ[\\]^_`az{|}~\x7f\x80\xff")):
+            p = "%02x" % first
+            cases.append("sweep uri.rt ui %s 2" % p)
+            cases.append("sweep esc 3 %s 2" % p)
+    # --- small scope as single cases through the Python oracle ---
     for k in (0, 1):
         for t in itertools.product(range(256), repeat=k):
             h = hx(bytes(t))
@@ -111,17 +118,21 @@ def gen_cases(rng, n, tier="quick"):
                 cases.append("esc %d %s" % (f, h))
             cases.append("uri.dec " + h)
             cases.append("unesc " + h)
-    for a in range(256):
-        for b in range(256):
+    pairs = b"\x00\x01 %/:@?#&=+~<\"'[\\^`{a0AFgZ\x7f\x80\xff-._"
+    for a in pairs:
+        for b in pairs:
             h = "%02x%02x" % (a, b)
-            cases.append("uri.rt ui " + h)
-            cases.append("esc 3 " + h)
-    for a in b"%0aF\x00g":                              # decoder inputs: all 3-byte strings '%' x y, and around them
+            for name in ("ui", "path", "unres"):
+                cases.append("uri.rt %s %s" % (name, h))
+            for f in FLAGS:
+                cases.append("esc %d %s" % (f, h))
+    for a in b"%0aF\x00g":                              # decoder inputs: '%' x y for all x, and around them
         for b in range(256):
             for c in (list(HEXD[:3]) + [0, 37, 103, 255]):
                 cases.append("uri.dec " + hx(bytes([37, b, c])))
                 cases.append("unesc " + hx(bytes([37, b, c, a])))
-    # --- random ---
+    # --- random ---  (the explicit-buffer model of rfc1738_unescape costs n^2: escaped forms stay <= ~1 KB
+    #     here, a handful of 4 KB ones follow)
     for _ in range(n):
         k = rng.random()
         if k < 0.3:
@@ -132,20 +143,24 @@ def gen_cases(rng, n, tier="quick"):
             cases.append("uri.rt %s %s" % (name, hx(s)))
         elif k < 0.6:
             f = rng.choice(FLAGS)
-            s = rand_plain(rng, 4096)
+            s = rand_plain(rng, 340)
             if not escapes_percent(f) and rng.random() < 0.7:
                 s = s.replace(b"%", b"")
             cases.append("esc %d %s" % (f, hx(s)))
         elif k < 0.8:
             cases.append("uri.dec " + hx(rand_encoded(rng, 4096)))
         else:
-            cases.append("unesc " + hx(rand_encoded(rng, 4096)))
+            cases.append("unesc " + hx(rand_encoded(rng, 1024)))
     for _ in range(max(n // 50, 20)):                   # long ones, up to 4 KB
         s = bytes(rng.randrange(1, 256) for _ in range(rng.choice([1365, 4095, 4096])))
         cases.append("uri.rt %s %s" % (rng.choice(["ui", "unres"]), hx(s)))
+        cases.append("uri.dec " + hx(rand_encoded(rng, 4096 * 3)[:4096]))
+    for _ in range(3 if tier == "quick" else 40):       # 4 KB through the n^2 model
+        s = bytes(rng.randrange(1, 256) for _ in range(1365))
         cases.append("esc %d %s" % (rng.choice([2, 3, 7]), hx(s)))
-        cases.append("unesc " + hx(rand_encoded(rng, 4096 * 3)))
-        cases.append("uri.dec " + hx(rand_encoded(rng, 4096 * 3)))
+        s = bytes(rng.choice(b"abcdefghijklmnopqrstuvwxyz0123456789%/ ") for _ in range(rng.choice([4095, 4096])))
+        cases.append("esc %d %s" % (rng.choice(FLAGS), hx(s.replace(b"%", b"") if rng.random() < 0.5 else s)))
+        cases.append("unesc " + hx(rand_encoded(rng, 4096 * 3)[:4096]))
     return cases
 
 
@@ -303,11 +318,13 @@ def nontrivial(c, o):
 
 
 def run(res, tier):
-    res.rule = ("all byte strings of length <= 2 (thorough: <= 3) for every encoder (3 URI ignore sets, 7 rfc1738 flag sets) and both "
-                "decoders as in-harness sweeps compared by digest; all strings of length <= 1 for every operation and all of length 2 "
-                "for Uri userinfo / rfc1738_escape as single cases; '%'+2-byte decoder inputs; random strings up to 4 KB, random ignore "
-                "sets, decoder inputs mixing valid, truncated and non-hex triplets, %%, %00 and embedded NUL; non-trivial = something "
-                "was encoded / decoded")
+    res.rule = ("in-harness sweeps compared with the model by digest: all byte strings of length <= 1 for every operation (3 URI "
+                "ignore sets, 7 rfc1738 flag sets, both decoders), all 65536 of length 2 for both decoders, the userinfo encoder, "
+                "rfc1738_escape and rfc1738_escape_unescaped (thorough: every operation; all of length 3 for the decoders, and for "
+                "userinfo / rfc1738_escape with the first byte over 36 class representatives); single cases through the Python oracle: "
+                "all strings of length <= 1 and all pairs over a 32-symbol alphabet for every operation, '%'+2-byte decoder inputs, "
+                "random strings up to 4 KB, random ignore sets, decoder inputs mixing valid, truncated and non-hex triplets, %%, %00 and "
+                "embedded NUL; non-trivial = something was encoded / decoded")
     std.run_standard(res, PID, tier, area="quote", build_impl=c32.impl,
                      gen_cases=lambda rng, n: gen_cases(rng, n, tier), oracle=oracle,
                      corr_name="QuoteModel (uri_decode, rfc1738_unescape, tables from gen_bytemaps) vs src/anyp/Uri.cc, lib/rfc1738.cc",
